@@ -39,6 +39,10 @@ PAIRS: List[tuple] = [
     ("$[?@.a =~ /a.*/]", "$[?match(@.a, 'a.*')]", None, "objarr", {"strs": S}), ("$[?@.a =~ /a.*/i]", "$[?match(@.a, '[aA].*')]", None, "objarr", {"strs": S}),
     ("$[?@.a =~ /a.b/s]", "$[?match(@.a, 'a[\\\\s\\\\S]b')]", None, "objarr", {"strs": S}), ("$[?@.a =~ /b/]", "$[?@.a == 'b']", None, "objarr", {"strs": S}),
     ("$[?@.a =~ /a$/m]", "$[?@.a == 'a']", None, "objarr", {"strs": S}),
+    # ... in an environment that has compiled the same pattern text under other flags before
+    ("$[?@.a =~ /a.*/i]", "$[?match(@.a, '[aA].*')]", None, "objarr", {"strs": S, "prior": ["$[?@.a =~ /a.*/]", "$[?@.b =~ /a.*/s]"]}),
+    ("$[?@.a =~ /a.*/]", "$[?match(@.a, 'a.*')]", None, "objarr", {"strs": S, "prior": ["$[?@.a =~ /a.*/i]"]}),
+    ("$[?@.a =~ /a.b/]", "$[?match(@.a, 'a.b')]", None, "objarr", {"strs": S, "prior": ["$[?@.a =~ /a.b/s]", "$[?@.a =~ /A.B/i]"]}),
     # operator aliases
     ("$[?@.a <> 1]", "$[?@.a != 1]", None, "objarr", {}), ("$[?@.a == 1 && @.b <> 2]", "$[?@.a == 1 && @.b != 2]", None, "objarr", {"leaf": "int"}),
     ("$[?@.b <> 2 && @.a == 1]", "$[?@.b != 2 && @.a == 1]", None, "objarr", {"leaf": "int"}), ("$[?@.b <> 2 || @.a <> 1]", "$[?@.b != 2 || @.a != 1]", None, "objarr", {"leaf": "int"}),
@@ -97,7 +101,7 @@ def plan(tier: str, seed: int) -> Plan:
             params["leaf"] = "int"
             params["maxn"] = 1
         params.setdefault("leaf", "leaf")
-        conds.append(Condition(f"{spine}:{ext}", "equiv", H, "equiv", params, T, required=False,
+        conds.append(Condition(f"{spine}:{ext}" + (":after:" + "+".join(params["prior"]) if "prior" in params else ""), "equiv", H, "equiv", params, T, required=False,
                                bounds=f"spine {spine}; two leaves {params['leaf']}" + (" drawn from a string pool" if "strs" in params else "")
                                       + ", two int leaves; filter context {k: symbolic, a: [k, 1], s: 'abc', o: {a: 1}}"))
     return Plan(
